@@ -617,6 +617,14 @@ def R5_error_discipline(ctx):
             src = src[2][0]
         key = src[1] if src[0] == "call" else short(src)[:60]
         n += 1
+        if src[0] == "call" and (itm(key, "try_for_each") or itm(key, "try_fold")) and src[2][-1][0] == "closure" and src[2][-1][1] in F.bodies:
+            # the errors of `it.try_for_each(|x| f(x))?` are those of the closure: every fallible source in it must be on the list
+            cb = F.bodies[src[2][-1][1]]
+            with no_inline():
+                inner_calls = [c for c in cb.calls() if c.callee and (cb.locals[c.dest["l"]]["ty"].startswith("std::result::Result<") if c.dest and not c.dest["p"] else False)]
+            fall = sorted({c.callee for c in inner_calls if not re.search(r"Result::<T, E>::(map_err|map)$|Try>::branch$|FromResidual", c.callee)})
+            ctx.check(bool(fall) and all(k in allowed for k in fall), "propagates:%s@%d" % (key.split("::")[-1], n), "run() propagates an Err of %s whose closure can fail with %s: a failure that is not on the audited batch-level list aborts the whole batch" % (key.split("::")[-1], [k.split("::")[-1] for k in fall if k not in allowed]), b.where(sbb), detail="closure errors: %s" % [allowed.get(k) for k in fall])
+            continue
         if key == "std::result::Result::<T, E>::map_err":
             inner2 = src[2][0]
             okm = inner2[0] == "call" and inner2[1] == "kdam::std::bar::BarBuilder::build"
